@@ -39,15 +39,40 @@ def sites(text):
     return res
 
 
-def gen():
+def sites_aor(text):
+    """(line, col, old, [replacements]) for binary + / - and for small integer literals (k -> k+1, k-1)"""
+    cut = text.find('#[cfg(test)]')
+    body = text if cut < 0 else text[:cut]
+    res = []
+    for li, line in enumerate(body.split('\n')):
+        s = line.strip()
+        if s.startswith('//') or s.startswith('#') or s.startswith('const ') or s.startswith('static '):
+            continue
+        code = line.split('//')[0]
+        if code.count('"') >= 2:
+            continue
+        for m in re.finditer(r'(?<=[\w\)\]])\s([+-])\s(?=[\w\(])', code):
+            res.append((li, m.start(1), m.group(1), ['-' if m.group(1) == '+' else '+']))
+        for m in re.finditer(r'(?<![\w.])(\d{1,3})(?![\w.])', code):
+            k = int(m.group(1))
+            pre = code[:m.start()]
+            if k > 300 or re.search(r'(<<|>>)\s*$', pre) or re.search(r'\[\s*$', pre) and code[m.end():].lstrip().startswith(';'):
+                continue
+            reps = [str(k + 1)] + ([str(k - 1)] if k > 0 else [])
+            res.append((li, m.start(1), m.group(1), reps))
+    return res
+
+
+def gen(kind='ror'):
     shutil.rmtree(OUT, ignore_errors=True)
     os.makedirs(OUT + '/mut')
     n = 0
     for f in FILES:
         text = open('/repo/' + f).read()
         lines = text.split('\n')
-        for li, col, op in sites(text):
-            for k, rep in enumerate(REPL[op]):
+        ss = [(li, col, op, REPL[op]) for li, col, op in sites(text)] if kind == 'ror' else sites_aor(text)
+        for li, col, op, reps in ss:
+            for k, rep in enumerate(reps):
                 new = list(lines)
                 new[li] = lines[li][:col] + rep + lines[li][col + len(op):]
                 mid = '%s_%d_%d_%d' % (f.replace('/', '_').replace('.rs', ''), li + 1, col, k)
@@ -152,7 +177,7 @@ def judge():
 if __name__ == '__main__':
     cmd = sys.argv[1]
     if cmd == 'gen':
-        gen()
+        gen(sys.argv[2] if len(sys.argv) > 2 else 'ror')
     elif cmd == 'test':
         test(int(sys.argv[2]) if len(sys.argv) > 2 else 6)
     elif cmd == 'judge':
